@@ -5,8 +5,8 @@ from . import c13_heads
 LEVEL = "model_checking"
 MANIFEST = dict(
     category="model_checking",
-    text="Heads.tla (with Forms.tla: exact linear forms over named constants) specifies softmax / Gaussian / tanh-Gaussian / deterministic heads and the greedy / epsilon-greedy selectors on a lattice where every value is an exact form; TLC checks the one-distribution laws (normalisation, log-prob = log of entry, entropy closed form, standardised-noise invariance, greedy is a maximiser, epsilon 0 / 1) and totality over un-batched and batched shapes; every lattice vector is replayed into the real heads (eager and jitted). The loop clause is decided on recorded runs of the value-based routines with epsilon interposed to 0, 1 and the routine's own schedule: LoopTrace.tla checks GreedyIsMaximiser, GreedyOnCurrentEstimate, ChosenActionPassed, EpsilonZeroAlwaysGreedy, EpsilonOneNeverGreedy, PolicyBeforeWarmup, and ExecutedActionGreedy: with exploration probability 0 every action the environment receives is a maximiser (decided by TLC on float32 ordinals) of the routine's current table / live online network at the observation the environment returned last, read at execution time - also on a scripted environment with self-transitions and negative rewards, where an update changes the maximiser of the row the agent is still in. The design model Loop.tla carries the same clause as the guard of PolicyAct (invariant ExecutedActionGreedy) and refutes the deviation ActOnStaleChoice (execute the choice made before the update).",
-    note="values off the lattice (arbitrary logits, general mean/sigma) are not decided; transcendental forms compared with counted rounding bounds; executed actions are judged for the tabular routines and the DQN family (the routines whose adapter can read the current estimate), with epsilon 0 only; trusted: stub networks, form evaluation in float64, recording wrappers (incl. the adapter's notion of the current table: the one most recently returned by the learner), TLC",
+    text="Heads.tla (with Forms.tla: exact linear forms over named constants) specifies softmax / Gaussian / tanh-Gaussian / deterministic heads and the greedy / epsilon-greedy selectors on a lattice where every value is an exact form; TLC checks the one-distribution laws (normalisation, log-prob = log of entry, entropy closed form, standardised-noise invariance, greedy is a maximiser, epsilon 0 / 1) and totality over un-batched and batched shapes; every lattice vector is replayed into the real heads (eager and jitted). The greedy selectors (tabular greedy, network greedy, epsilon-greedy with epsilon 0 under several keys) are also specified on near-ties: Q rows of float32 numbers 0-3 ulps apart at magnitudes 2^-40 .. 1000, both signs, across a binade and next to zero, written as float32 ordinals on which TLC decides the maximiser set exactly (any maximiser is accepted on exact ties; deviation canary: a fixed-size tie-breaking jitter). The loop clause is decided on recorded runs of the value-based routines with epsilon interposed to 0, 1 and the routine's own schedule: LoopTrace.tla checks GreedyIsMaximiser, GreedyOnCurrentEstimate, ChosenActionPassed, EpsilonZeroAlwaysGreedy, EpsilonOneNeverGreedy, PolicyBeforeWarmup, and ExecutedActionGreedy: with exploration probability 0 every action the environment receives is a maximiser (decided by TLC on float32 ordinals) of the routine's current table / live online network at the observation the environment returned last, read at execution time - also on a scripted environment with self-transitions and negative rewards, where an update changes the maximiser of the row the agent is still in. The design model Loop.tla carries the same clause as the guard of PolicyAct (invariant ExecutedActionGreedy) and refutes the deviation ActOnStaleChoice (execute the choice made before the update).",
+    note="values off the lattice (arbitrary logits, general mean/sigma, subnormal Q-values) are not decided; transcendental forms compared with counted rounding bounds; executed actions are judged for the tabular routines and the DQN family (the routines whose adapter can read the current estimate), with epsilon 0 only; trusted: stub networks, form evaluation in float64, recording wrappers (incl. the adapter's notion of the current table: the one most recently returned by the learner), TLC",
     technique="TLA+ spec + TLC on an exact-form lattice, replayed into the real heads; TLC on the design model Loop.tla (strict + deviation canary); trace validation of recorded training runs for the exploration discipline",
 )
 
